@@ -4,6 +4,7 @@
    them with the outcome of probe programs.
 
      M n..                      dim_mult                      -> M elems m..
+     F n..                      dim_fits                      -> F 0|1
      A n.. | i..                dim_mult + dim_addr           -> A addr oob
      D n m n m .. | i..         dim_addr                      -> D addr oob
      R a b c d                  get_slice_range               -> R rf rt oob
@@ -14,6 +15,8 @@
      X b h b h .. | ip..        exctab_of_list, exctab_search, exception_tab_search -> X i:h|- ..
      XN ip..                    exctab_search None            -> X - ..
      HA s | i..                 array_deref                   -> ok k | oob d | nil
+     HM n..                     mk_array (MK_ARRAY)           -> ok elems | oob d | size
+     HMA n.. | i..              mk_array, array_deref         -> ok k | oob d | size
      HR r | i..                 range_deref                   -> ok v.. | oob d | nil
      HS s | r | i..             slice_array, slice_deref
      HSS s | r1 | r2 | i..      slice_array, slice_slice, slice_deref
@@ -66,6 +69,12 @@ let run_line line =
      | "M" ->
        let (dv, e) = dim_mult (zs (nums (g 0))) in
        String.trim (Printf.sprintf "M %d %s" (int_of_z e) (ints (List.map snd dv)))
+     | "F" -> Printf.sprintf "F %d" (if dim_fits (zs (nums (g 0))) then 1 else 0)
+     | "HM" -> "HM " ^ show_res (fun (_, e) -> string_of_int (int_of_z e)) (mk_array (zs (nums (g 0))))
+     | "HMA" ->
+       (match mk_array (zs (nums (g 0))) with
+        | Exc e -> "HMA " ^ show_exc e
+        | Ok (dv, _) -> "HMA " ^ show_res (fun k -> string_of_int (int_of_z k)) (array_deref (Some dv) (zs (nums (g 1)))))
      | "A" ->
        let (dv, _) = dim_mult (zs (nums (g 0))) in
        let (a, oob) = dim_addr dv (zs (nums (g 1))) in
